@@ -27,8 +27,29 @@ pub(crate) fn escape_html_quote(s: &str) -> Cow<'_, str> {
     })
 }
 
+/// Quote a string as a literal that both JavaScript and the WXML expression parser read back exactly.
 pub(crate) fn gen_lit_str(s: &str) -> String {
-    format!("{:?}", s)
+    use std::fmt::Write;
+    let mut ret = String::with_capacity(s.len() + 2);
+    ret.push('"');
+    for c in s.chars() {
+        match c {
+            '"' => ret.push_str("\\\""),
+            '\\' => ret.push_str("\\\\"),
+            '\n' => ret.push_str("\\n"),
+            '\r' => ret.push_str("\\r"),
+            '\t' => ret.push_str("\\t"),
+            '\u{2028}' => ret.push_str("\\u2028"),
+            '\u{2029}' => ret.push_str("\\u2029"),
+            c if (c as u32) < 0x20 || c == '\x7F' => {
+                // never `\0` : followed by a digit it would be an octal escape
+                write!(ret, "\\x{:02x}", c as u32).unwrap();
+            }
+            c => ret.push(c),
+        }
+    }
+    ret.push('"');
+    ret
 }
 
 pub(crate) fn dash_to_camel(s: &str) -> CompactString {
